@@ -64,6 +64,30 @@ def gen_task(job):
                                            decisions=[], note="", expect=task.expect))
             out.update(paths=1, returns=0, raises={}, functions=[], covers=[], gen_s=round(time.time() - t0, 3), externals=[])
             return out
+        if task.kind == "spec_lemma":
+            from pyvc.interp import Frame
+            from pyvc.values import T as _T
+            it = P.factory()()
+            ctx = it.ctx
+            ctx.reset()
+            modname = task.module if task.module.startswith(P.index.package) else P.index.package + "." + task.module
+            fr = Frame(P.index.modules[modname])
+            for n, t in task.params.items():
+                fr.vars[n] = t.fresh(ctx, n) if isinstance(t, _T) else (t(it) if callable(t) else t)
+            from pyvc.verify import heap_axioms
+            heap_axioms(it, [t for t in task.params.values() if isinstance(t, _T)])
+            ctx.func_stack.append("<spec-lemma>")
+            for h in task.hyps:
+                ctx.assume(it.truth(it.eval_spec(h, fr)))
+            ctx.oblige("canary.hypotheses_satisfiable", z3.BoolVal(False), None, kind="canary")
+            ctx.oblige(f"lemma.{task.name}", it.truth(it.eval_spec(task.goal, fr)), None, kind="lemma")
+            for o in ctx.obligations:
+                qf, full, triv, refute = serialize(o)
+                out["obligations"].append(dict(name=o.name, kind=o.kind, func="<spec-lemma>", line=0, qf=qf, full=full, trivial=triv, refute=refute,
+                                               decisions=[], note="", expect="sat" if o.kind == "canary" else "unsat"))
+            out.update(paths=1, returns=0, raises={}, functions=[], covers=[], gen_s=round(time.time() - t0, 3),
+                       externals=sorted(getattr(it, "used_externals", set())))
+            return out
         contract = task.contract or P.contracts[P.index.lookup(task.target).fq]
         extra = dict(task.opts.pop("extra_contracts", None) or {})
         if task.contract is not None:
